@@ -177,3 +177,43 @@ m('lru-stats-wrong-counter', 'R03f', LRU,
 	return c.uncompressedSize''',
   '''func (c *SizedLRU) UncompressedSize() int64 {
 	return c.currentSize''')
+m('lru-add-refuses-after-insert', 'R04g,R03c', LRU,
+  '''		sizeDelta = roundedUpSizeOnDisk
+		if c.reservedSize+sizeDelta > c.maxSize {
+			return false
+		}
+		uncompressedSizeDelta = roundUp4k(value.size)
+		ele := c.ll.PushFront(&entry{key, value})
+		c.cache[key] = ele
+''',
+  '''		sizeDelta = roundedUpSizeOnDisk
+		uncompressedSizeDelta = roundUp4k(value.size)
+		ele := c.ll.PushFront(&entry{key, value})
+		c.cache[key] = ele
+		if c.reservedSize+sizeDelta > c.maxSize {
+			return false
+		}
+''')
+m('lru-overwrite-refuses-after-queueing', 'R04g,R03c', LRU,
+  '''		if c.reservedSize+sizeDelta > c.maxSize {
+			return false
+		}
+		uncompressedSizeDelta = roundUp4k(value.size) - roundUp4k(ee.Value.(*entry).value.size)
+		c.ll.MoveToFront(ee)
+		c.counterOverwrittenBytes.Add(float64(ee.Value.(*entry).value.sizeOnDisk))
+
+		kv := ee.Value.(*entry)
+		kvCopy := &entry{kv.key, kv.value}
+		c.appendEvictionToQueue(kvCopy)
+''',
+  '''		uncompressedSizeDelta = roundUp4k(value.size) - roundUp4k(ee.Value.(*entry).value.size)
+		c.ll.MoveToFront(ee)
+		c.counterOverwrittenBytes.Add(float64(ee.Value.(*entry).value.sizeOnDisk))
+
+		kv := ee.Value.(*entry)
+		kvCopy := &entry{kv.key, kv.value}
+		c.appendEvictionToQueue(kvCopy)
+		if c.reservedSize+sizeDelta > c.maxSize {
+			return false
+		}
+''')
